@@ -22,7 +22,7 @@ import (
 
 func TestMain(m *testing.M) {
 	harness.Property("C16",
-		"scripted master (MOTD, SID, ;PQ: <challenge>, prompt, then FQ after the slave's FF) against a real slave Session; challenge = digits (typical) or printable ASCII without edge spaces, 1..32 chars; password = any bytes without CR (1..24), in a third of the cases extended by a searched suffix so that the 30 bit value has fewer than 8 decimal digits (zero padding corner); 0..4 auxiliary addresses each with password / empty password / callback error; main callback ok / error / not registered. Oracle = independent formulation of the algorithm (internal/ref/secure, pinned by the published vector). Non-trivial = at least one auxiliary address; distinct by hash of the case.",
+		"scripted master (MOTD, SID, ;PQ: <challenge>, prompt, then FQ after the slave's FF) against a real slave Session; challenge = digits (typical) or printable ASCII without edge spaces, 1..32 chars; password = any bytes without CR (0..24, the empty password included), in a third of the cases extended by a searched suffix so that the 30 bit value has fewer than 8 decimal digits (zero padding corner); 0..4 auxiliary addresses each with password / empty password / callback error; main callback ok / error / not registered. Oracle = independent formulation of the algorithm (internal/ref/secure, pinned by the published vector). Non-trivial = at least one auxiliary address; distinct by hash of the case.",
 		"the password-on-the-wire clause is only checked for passwords of >= 6 bytes that are not a substring of the legitimately expected output",
 	)
 	harness.Main(m)
@@ -181,7 +181,9 @@ func smallValueSuffix(challenge string, pw []byte, digits int) []byte {
 }
 
 func genPassword(t *rapid.T, label string) []byte {
-	switch rapid.IntRange(0, 2).Draw(t, label+"_kind") {
+	switch rapid.IntRange(0, 3).Draw(t, label+"_kind") {
+	case 3: // the empty password is a password too (for an auxiliary address it means "unknown")
+		return []byte{}
 	case 0:
 		return []byte(rapid.StringMatching(`[A-Za-z0-9]{1,12}`).Draw(t, label))
 	case 1:
